@@ -253,6 +253,7 @@ func genC02Value(t *rapid.T) m.Packet {
 }
 
 func TestC02(t *testing.T) {
+	defer harness.Uncaught(t)
 	harness.RapidCheck(t, harness.Scale(5000, 40000), 2, func(rt *rapid.T) {
 		c := valCase{P: genC02Value(rt)}
 		harness.Record(subC02One.Name, c, valueNonTrivial(c.P), classesOf(c.P)...)
